@@ -3,7 +3,7 @@ From Coq Require Import ZArith String List Bool Lia ZifyBool.
 From PushModel Require Import Base.Sx Base.Machine Base.ListOps Base.F32 Model.Item Model.GraphT Model.State
   Model.InstrBase Model.Registry Model.Interp Model.RegistryVec Model.RegistryListIo Model.RegistryGraph
   Model.RegistryNbr Model.RandomGen Model.IRand Model.RegistryRand Model.RegistryAll Model.Cost
-  Proofs.CostBase Proofs.CostGrowth Proofs.CostGrowthCore Proofs.CostGrowthVec Proofs.CostGrowthListIo
+  Proofs.CostBase Proofs.CostItem Proofs.CostGrowth Proofs.CostGrowthCore Proofs.CostGrowthVec Proofs.CostGrowthListIo
   Proofs.CostGrowthGraph.
 Import ListNotations.
 Close Scope string_scope.
@@ -61,5 +61,58 @@ Section All.
   Proof.
     intros Hin Hex. pose proof full_grows as G. unfold table_grows in G. rewrite Forall_forall in G.
     destruct (G _ Hin) as [E|Hg]; cbn [fst snd] in *; [congruence|exact Hg].
+  Qed.
+
+  (* ---- one interpreter step ---- *)
+  Lemma lookup_in_table (tbl : list (string * sem)) n f :
+    lookup (mk_registry tbl) n = Some f -> exists k, In (k, f) tbl /\ s2l k = n.
+  Proof.
+    induction tbl as [|[k v] r IH]; [discriminate|].
+    unfold mk_registry in *. cbn [map lookup fst snd].
+    destruct (str_eqb n (s2l k)) eqn:E.
+    - intro H; inversion H; subst. exists k. split; [now left|].
+      clear - E. revert E. generalize (s2l k). induction n as [|a n IH]; intros [|b m]; cbn [str_eqb]; try discriminate; auto.
+      intro E. apply andb_prop in E as [E1 E2]. f_equal; [lia|now apply IH].
+    - intro H. destruct (IH H) as (k' & Hin & Hk). exists k'. split; [now right|exact Hk].
+  Qed.
+
+  Lemma weight_push_lit s v : weight (push_lit s v) = weight s + lit_cells v.
+  Proof.
+    destruct_state s. destruct v; unfold weight, push_lit; proj_cbn; rewrite wsum_cons; cbn [lit_cells];
+      unfold cnt, idxw; lia.
+  Qed.
+  Lemma weight_set_exec_tl s t r : st_exec s = t :: r -> weight (set_exec s r) = weight s - iweight t.
+  Proof. destruct_state s. cbn [st_exec]. intros ->. unfold weight. proj_cbn. rewrite wsum_cons. lia. Qed.
+
+  (* whatever is on top of EXEC: a literal, a name, a list or a registered instruction outside
+     [GrowthExcluded] *)
+  Theorem step_growth p w s fin w' s' :
+    step p full_registry w s = Ok (fin, w', s') ->
+    (forall n k, hd_error (st_exec s) = Some (IInstr n) -> s2l k = n -> GrowthExcluded k = false) ->
+    weight s' <= 2 * weight s + 64.
+  Proof.
+    intros H Hex. pose proof (weight_nn s) as Wn. unfold step in H.
+    destruct (st_exec s) as [|t r] eqn:E; [inversion H; subst; lia|].
+    pose proof (weight_set_exec_tl s t r E) as W1. pose proof (iweight_pos t) as Tp.
+    destruct t as [l|n|v|n].
+    - inversion H; subst. clear H. rewrite iweight_list in *.
+      destruct_state s. cbn [st_exec] in E. subst xe. unfold weight in *. proj_cbn.
+      rewrite wsum_app, wsum_cons in *. rewrite iweight_list in *. lia.
+    - destruct (lookup full_registry n) as [f|] eqn:L.
+      + destruct (f p w (set_exec s r)) as [[w1 s1]| |] eqn:F; cbn [rbind] in H; inversion H; subst.
+        destruct (lookup_in_table _ _ _ L) as (k & Hin & Hk).
+        pose proof (weight_growth k f Hin (Hex n k eq_refl Hk) _ _ _ _ _ F). cbn [fst snd]. lia.
+      + inversion H; subst. lia.
+    - inversion H; subst. rewrite weight_push_lit. cbn [iweight] in *. lia.
+    - destruct (st_quote (set_exec s r)).
+      + inversion H; subst. clear H. destruct_state s. cbn [st_exec] in E. subst xe.
+        unfold weight in *. proj_cbn. rewrite !wsum_cons in *. cbn [iweight] in *. lia.
+      + destruct (bind_get (st_bind (set_exec s r)) n) as [b|] eqn:B.
+        * inversion H; subst. clear H. apply Proofs.CostItem.bind_get_le in B.
+          destruct_state s. cbn [st_exec] in E. subst xe.
+          unfold weight in *. proj_cbn. rewrite !wsum_cons in *. cbn [iweight] in *.
+          pose_nn. lia.
+        * inversion H; subst. clear H. destruct_state s. cbn [st_exec] in E. subst xe.
+          unfold weight in *. proj_cbn. rewrite !wsum_cons in *. cbn [iweight] in *. lia.
   Qed.
 End All.
